@@ -581,7 +581,7 @@ func (cc *Compiled) Guards(f *ast.File) (*Bindings, bool) {
 				return nil, false
 			}
 		case isMeta: // any name or none
-			id := &ast.Ident{Name: im.Name}
+			id := &ast.Ident{Name: im.Name, NamePos: 1} // a name with a (valid) position, like every name of the file
 			if spec.Name != nil {
 				id = spec.Name
 			}
